@@ -11,6 +11,8 @@ PROP = 'C15'
 def declare(c):
     c.rule('C15.R1', 'handleScriptHook contributes (exit commands as prefix, no postfix) iff script is gcode/'
                      'afterPrintDone, a print is active and an episode is open; otherwise None and no effect', floor=8)
+    c.rule('C15.R3', 'the prefix is a fresh list: the configured enter/exit script lists are neither handed out nor '
+                     'mutated, so the next clean-up contributes the configured script once and nothing stale', floor=2)
     c.rule('C15.R2', 'the contributing path closes the episode, so a repeated invocation contributes nothing', floor=2)
 
 
@@ -60,6 +62,19 @@ def run(ctx, tier):
             kinds = [sorted(set(classify(a) for a in live_alts(s, e)))[0] for e in s.seqs[v.elems[0].oid]]
             if 'tmpl:G92 E{}' not in kinds or not any(k.startswith('tmpl:G0 ') for k in kinds):
                 ctx.report('C15.R1', where, tag + ' prefix %s' % kinds, 'the prefix is not the exit re-synchronisation sequence')
+            ctx.instance('C15.R3', tag)
+            scripts = tuple(o for o in s.seqs if str(o).endswith('.enteringExcludedRegionGcode') or str(o).endswith('.exitingExcludedRegionGcode'))
+            if v.elems[0].oid in scripts:
+                ctx.report('C15.R3', where, 'configured script list handed out',
+                           'the prefix is the configured script list itself: OctoPrint (and the exit code) extend it, so the '
+                           'next clean-up repeats commands of this one')
+            for e in s.trace:
+                if e[0].startswith('seq-') and e[1] in scripts:
+                    ctx.report('C15.R3', e[-1] if isinstance(e[-1], str) and '.' in e[-1] else where,
+                               'configured script list mutated (%s)' % e[0],
+                               're-synchronisation commands of this episode are appended to a configured script: every later '
+                               'exit or clean-up replays them, with stale coordinates')
+                    break
             ctx.instance('C15.R2', tag)
             if f.post_excluding() is not False:
                 ctx.report('C15.R2', where, 'episode left open', 'after contributing the filter is still excluding: the '
